@@ -9,7 +9,8 @@ from pbt.stateful import HistoryMachine, replay_history
 LEVEL = 'fault_enumeration'
 SHARDS = {'quick': 2, 'thorough': 16}
 RULE = ('State machine over 2-4 real S3TapeCassette instances on one fake bucket, configurations drawn from '
-        '{read_only} x {transient} x key prefixes {"", "a", "ab", "a/b"} (string prefixes of one another), bucket '
+        '{read_only} x {transient} x key prefixes {"", "a", "ab", "a/b"} (string prefixes of one another) x '
+        'infrequent-access threshold {none, 0, below, above the recording size}, bucket '
         'pre-populated with foreign objects; rules: create+save, save of a recording created by another cassette, get, '
         'list, close, context-manager exit, re-save of a stored recording, and save-with-crash where the fake bucket raises '
         'after the k-th mutation (k = 1, 2: every mutation of a save) either as a BaseException (the process dies) or as an '
@@ -65,9 +66,14 @@ class Interp(object):
 
     def op_init(self, op):
         from playback.tape_cassettes.s3.s3_tape_cassette import S3TapeCassette
-        for prefix, ro, tr in op['configs']:
+        for cfg in op['configs']:
+            prefix, ro, tr = cfg[:3]
+            ia = cfg[3] if len(cfg) > 3 else None    # infrequent-access threshold in KB (None = never)
             self.cfgs.append((prefix, ro, tr))
-            self.cas.append(S3TapeCassette(zoo.BUCKET, key_prefix=prefix, read_only=ro, transient=tr))
+            self.cas.append(S3TapeCassette(zoo.BUCKET, key_prefix=prefix, read_only=ro, transient=tr,
+                                           infrequent_access_kb_threshold=ia))
+            if ia is not None:
+                self.flags.add('infrequent-access-threshold')
         ps = sorted(set(c[0] for c in self.cfgs))
         if any(a != b and b.startswith(a) for a in ps for b in ps):
             self.flags.add('prefix-related')
@@ -136,6 +142,10 @@ class Interp(object):
             raise Violation('writable cassette raised on save: %r' % (raised,), 'save-raises')
         else:
             self.flags.add('saved')
+        for m in muts:
+            obj = self.fake.bucket(zoo.BUCKET).get(m[2])
+            if m[0] == 'put' and obj is not None and obj[2].get('StorageClass') == 'STANDARD_IA':
+                self.flags.add('stored-as-infrequent-access')
 
     def op_save_foreign(self, op):
         """Save, through cassette i, a recording object created by another (writable) cassette."""
@@ -239,7 +249,9 @@ class Interp(object):
             'flag:' + f for f in sorted(self.flags) if op['op'] in ('close', 'save')))
 
 
-configs = st.lists(st.tuples(st.sampled_from(PREFIXES), st.booleans(), st.booleans()), min_size=2, max_size=4).map(
+IA_THRESHOLDS = [None, None, 0, 0.01, 50]   # KB; the recordings of this check compress to 30-60 bytes
+configs = st.lists(st.tuples(st.sampled_from(PREFIXES), st.booleans(), st.booleans(), st.sampled_from(IA_THRESHOLDS)),
+                   min_size=2, max_size=4).map(
     lambda l: [list(t) for t in l])
 
 
@@ -293,9 +305,9 @@ def replay(ctx, case):
 def crash_enumeration(ctx):
     """Deterministic sweep: for every configuration of a writable cassette and every mutation index of a save."""
     for prefix in PREFIXES:
-        for tr in (False, True):
+        for tr, ia in ((False, None), (True, None), (False, 0), (True, 0.01), (False, 50)):
             for k, kind in ((1, 'crash'), (2, 'crash'), (3, 'crash'), (1, 'lost'), (2, 'lost')):
-                hist = [{'op': 'init', 'configs': [[prefix, False, tr], [prefix, True, False]]},
+                hist = [{'op': 'init', 'configs': [[prefix, False, tr, ia], [prefix, True, False, None]]},
                         {'op': 'save', 'cas': 0, 'cat': 'A', 'v': 1},
                         {'op': 'save', 'cas': 0, 'cat': 'A', 'v': 2, 'crash': k, 'crash_kind': kind},
                         {'op': 'list', 'cas': 1, 'cat': 'A', 'limit': None},
